@@ -15,6 +15,7 @@ pub mod s_dpagg;
 pub mod s_pup;
 pub mod s_reltree;
 pub mod s_tau;
+pub mod s_exprimg;
 pub mod s_fn;
 pub mod s_inj;
 pub mod s_filter;
@@ -72,6 +73,7 @@ fn streams() -> Vec<(&'static str, GenFn, EvalFn)> {
         ("pup", s_pup::gen, s_pup::eval),
         ("reltree", s_reltree::gen, s_reltree::eval),
         ("taukeys", s_tau::gen, s_tau::eval),
+        ("exprimg", s_exprimg::gen, s_exprimg::eval),
     ]
 }
 
